@@ -11,7 +11,8 @@ open Gen.Base58 Btc
 inductive Err | tooLong | badChar | short | checksum | size
   deriving DecidableEq, Repr
 
-def CHUNK_BASE : Nat := BASE ^ CHUNK
+/-- `_CHUNK_BASE = __BASE ** _CHUNK`, for an arbitrary chunk size. -/
+def chunkBase (chunk : Nat) : Nat := BASE ^ chunk
 
 /-- `for _ in range(_CHUNK): chunk, digit = divmod(chunk, __BASE); digits.append(digit)` -/
 def chunkDigits : Nat → Nat → List Nat
@@ -19,12 +20,12 @@ def chunkDigits : Nat → Nat → List Nat
   | n + 1, c => (c % BASE) :: chunkDigits n (c / BASE)
 
 /-- first loop of `_b58encode_from_int`: (digits least-significant first, what is left of i). -/
-def encLoop1 : Nat → Nat → List Nat × Nat
+def encLoop1 (chunk : Nat) : Nat → Nat → List Nat × Nat
   | 0, i => ([], i)
   | fuel + 1, i =>
-    if i ≥ CHUNK_BASE then
-      let r := encLoop1 fuel (i / CHUNK_BASE)
-      (chunkDigits CHUNK (i % CHUNK_BASE) ++ r.1, r.2)
+    if i ≥ chunkBase chunk then
+      let r := encLoop1 chunk fuel (i / chunkBase chunk)
+      (chunkDigits chunk (i % chunkBase chunk) ++ r.1, r.2)
     else ([], i)
 
 /-- second loop: `while i or not digits`. -/
@@ -33,10 +34,13 @@ def encLoop2 : Nat → Nat → Bool → List Nat
   | fuel + 1, i, noDigits =>
     if i ≠ 0 ∨ noDigits then (i % BASE) :: encLoop2 fuel (i / BASE) false else []
 
-/-- digits of `_b58encode_from_int(i)`, most significant first. -/
-def digitsOfInt (i : Nat) : List Nat :=
-  let r := encLoop1 (i + 1) i
+/-- digits of `_b58encode_from_int(i)`, most significant first, for chunk size `chunk`. -/
+def digitsOfIntC (chunk i : Nat) : List Nat :=
+  let r := encLoop1 chunk (i + 1) i
   (r.1 ++ encLoop2 (i + 1) r.2 r.1.isEmpty).reverse
+
+/-- with the generated `_CHUNK`. -/
+def digitsOfInt (i : Nat) : List Nat := digitsOfIntC CHUNK i
 
 def charOf (d : Nat) : Nat := ALPHABET.getD d 0
 def digitOf (c : Nat) : Option Nat := ALPHABET.idxOf? c
@@ -57,12 +61,12 @@ def encode (H : Bytes → Bytes) (v : Bytes) : List Nat := b58encode (v ++ (H v)
 def chunkValue (ds : List Nat) : Nat := ds.foldl (fun v d => v * BASE + d) 0
 
 /-- `_b58decode_to_int` on digits: one accumulator multiplication per chunk. -/
-def decodeToInt : Nat → List Nat → Nat → Nat
+def decodeToInt (chunk : Nat) : Nat → List Nat → Nat → Nat
   | 0, _, i => i
   | fuel + 1, ds, i =>
     if ds.isEmpty then i else
-    let c := ds.take CHUNK
-    decodeToInt fuel (ds.drop CHUNK) (i * BASE ^ c.length + chunkValue c)
+    let c := ds.take chunk
+    decodeToInt chunk fuel (ds.drop chunk) (i * BASE ^ c.length + chunkValue c)
 
 def allDigits : List Nat → Option (List Nat)
   | [] => some []
@@ -81,7 +85,7 @@ def b58decode (v : List Nat) : Except Err Bytes :=
   | some ds =>
     let w := stripLeading 0 ds
     let nPad := ds.length - w.length
-    .ok (List.replicate nPad (0 : UInt8) ++ (if w.isEmpty then [] else minimalBE (decodeToInt (w.length + 1) w 0)))
+    .ok (List.replicate nPad (0 : UInt8) ++ (if w.isEmpty then [] else minimalBE (decodeToInt CHUNK (w.length + 1) w 0)))
 
 /-- `decode(v, out_size)`. -/
 def decode (H : Bytes → Bytes) (v : List Nat) (outSize : Option Nat) : Except Err Bytes :=
